@@ -183,9 +183,11 @@ type blockCtx struct {
 	fees      types.Currency
 	ts        time.Time
 	ephemeral []types.SiacoinElement // v2 outputs created in this block, spendable ephemerally
-	v1made    []v1eph               // v1 outputs created in this block
+	v1made    []v1eph               // v1 siacoin outputs created in this block (spendable at once by a later v1 transaction)
+	v1madeSF  []v1ephSF             // v1 siafund outputs created in this block
 	inblock   []*inblockFC          // v1 contracts created or revised in this block
 	v2revised map[types.FileContractID]types.V2FileContract // latest in-block revision of v2 contracts
+	provedV1  map[types.FileContractID]bool                  // v1 contracts of the store proven in this block
 }
 
 type inblockFC struct {
@@ -200,6 +202,11 @@ type inblockFC struct {
 type v1eph struct {
 	id  types.SiacoinOutputID
 	out types.SiacoinOutput
+}
+
+type v1ephSF struct {
+	id  types.SiafundOutputID
+	out types.SiafundOutput
 }
 
 func (s *Sim) recipeFor(addr types.Address) *Recipe { return s.W.Recipes[addr] }
@@ -393,6 +400,42 @@ func (s *Sim) v1Pay(ctx *blockCtx) (types.Transaction, consensus.V1TransactionSu
 	}
 	s.Counts["v1:pay"]++
 	return txn, ts, nil
+}
+
+// v1SpendEphemeral spends a siacoin output created by an earlier v1 transaction of the same block.
+func (s *Sim) v1SpendEphemeral(ctx *blockCtx) (types.Transaction, consensus.V1TransactionSupplement, error) {
+	var txn types.Transaction
+	var ts consensus.V1TransactionSupplement
+	for _, m := range ctx.v1made {
+		r := s.recipeFor(m.out.Address)
+		if ctx.used[types.Hash256(m.id)] || r == nil || !s.spendable(r, false, ctx.ts) || m.out.Value.IsZero() {
+			continue
+		}
+		ctx.used[types.Hash256(m.id)] = true
+		txn.SiacoinInputs = []types.SiacoinInput{{ParentID: m.id, UnlockConditions: *r.UC}}
+		s.payOutV1(ctx, &txn, m.out.Value)
+		s.Counts["v1:ephemeral-siacoin"]++
+		return txn, ts, nil
+	}
+	return txn, ts, errNothing
+}
+
+// v1SiafundEphemeral spends a siafund output created by an earlier v1 transaction of the same block.
+func (s *Sim) v1SiafundEphemeral(ctx *blockCtx) (types.Transaction, consensus.V1TransactionSupplement, error) {
+	var txn types.Transaction
+	var ts consensus.V1TransactionSupplement
+	for _, m := range ctx.v1madeSF {
+		r := s.recipeFor(m.out.Address)
+		if ctx.used[types.Hash256(m.id)] || r == nil || !s.spendable(r, false, ctx.ts) {
+			continue
+		}
+		ctx.used[types.Hash256(m.id)] = true
+		txn.SiafundInputs = []types.SiafundInput{{ParentID: m.id, UnlockConditions: *r.UC, ClaimAddress: s.newAddr(false, ctx.ts)}}
+		txn.SiafundOutputs = []types.SiafundOutput{{Value: m.out.Value, Address: s.newAddr(false, ctx.ts)}}
+		s.Counts["v1:ephemeral-siafund"]++
+		return txn, ts, nil
+	}
+	return txn, ts, errNothing
 }
 
 func (s *Sim) v1Siafund(ctx *blockCtx) (types.Transaction, consensus.V1TransactionSupplement, error) {
@@ -613,6 +656,10 @@ func (s *Sim) v1Proof(ctx *blockCtx) (types.Transaction, consensus.V1Transaction
 			sp.Leaf, sp.Proof = FileProof(data, idx)
 		}
 		ctx.used[types.Hash256(e.ID)] = true
+		if ctx.provedV1 == nil {
+			ctx.provedV1 = map[types.FileContractID]bool{}
+		}
+		ctx.provedV1[e.ID] = true
 		txn.StorageProofs = []types.StorageProof{sp}
 		ts.StorageProofs = append(ts.StorageProofs, consensus.V1StorageProofSupplement{FileContract: e.Copy(), WindowID: windowID})
 		s.Counts["v1:proof"]++
@@ -1049,7 +1096,7 @@ func (s *Sim) BuildBlock() BlockPlan {
 	useV2 := s.V2Allowed()
 	n := s.Rng.Intn(s.MaxTxns + 1)
 	if !s.V1Forbidden() {
-		kinds := []func(*blockCtx) (types.Transaction, consensus.V1TransactionSupplement, error){s.v1Pay, s.v1Pay, s.v1Siafund, s.v1Form, s.v1Form, s.v1Revise, s.v1Proof, s.v1Proof, s.v1Foundation}
+		kinds := []func(*blockCtx) (types.Transaction, consensus.V1TransactionSupplement, error){s.v1Pay, s.v1Pay, s.v1Siafund, s.v1Form, s.v1Form, s.v1Revise, s.v1Proof, s.v1Proof, s.v1Foundation, s.v1SpendEphemeral, s.v1SiafundEphemeral}
 		nv1 := n
 		if useV2 {
 			nv1 = s.Rng.Intn(n + 1)
@@ -1062,6 +1109,14 @@ func (s *Sim) BuildBlock() BlockPlan {
 			s.signV1(s.Tip, &txn)
 			b.Transactions = append(b.Transactions, txn)
 			supp.Transactions = append(supp.Transactions, ts)
+			if len(txn.StorageProofs) == 0 {
+				for oi, o := range txn.SiacoinOutputs {
+					ctx.v1made = append(ctx.v1made, v1eph{txn.SiacoinOutputID(oi), o})
+				}
+				for oi, o := range txn.SiafundOutputs {
+					ctx.v1madeSF = append(ctx.v1madeSF, v1ephSF{txn.SiafundOutputID(oi), o})
+				}
+			}
 		}
 		n -= nv1
 		// contracts whose window ends now expire
@@ -1069,6 +1124,11 @@ func (s *Sim) BuildBlock() BlockPlan {
 			if e.FileContract.WindowEnd <= child && !ctx.used[types.Hash256(e.ID)] {
 				supp.ExpiringFileContracts = append(supp.ExpiringFileContracts, e.Copy())
 				s.Counts["v1:expire"]++
+			} else if e.FileContract.WindowEnd <= child && ctx.provedV1[e.ID] && s.Rng.Intn(3) > 0 {
+				// a node computes the expiring set from the contracts live at the START of the block, so a contract that
+				// is proven in the last block of its window is listed as expiring too; applying the block must skip it
+				supp.ExpiringFileContracts = append(supp.ExpiringFileContracts, e.Copy())
+				s.Counts["v1:expire-listed-but-proven-in-block"]++
 			}
 		}
 	}
